@@ -81,4 +81,116 @@ class HmmPosterior(BCheck):
         return None
 
 
-B_CHECKS = [HmmPosterior()]
+class DetermineGenotype(BCheck):
+    name = "C08.determine_genotype"
+    contract = "determine_genotype(L, t) is the genotype g with L[g] > L[h] for both other h and L[g] > t, and the empty genotype when no such g exists"
+    rule = "exhaustive grid: likelihood triples over {0, 0.1, 0.2, 1/3, 0.4, 0.5, 0.6, 0.8, 1} (all triples, not only normalised ones) x thresholds {0, 0.3, 0.5, 0.9, 0.999}"
+    exhaustive_in = ("quick", "thorough")
+    parallel = False
+    chunk = 5000
+
+    def inputs(self, tier, rng):
+        vals = [0.0, 0.1, 0.2, 1 / 3, 0.4, 0.5, 0.6, 0.8, 1.0]
+        for a in vals:
+            for b in vals:
+                for c in vals:
+                    for t in (0.0, 0.3, 0.5, 0.9, 0.999):
+                        yield dict(L=[a, b, c], t=t)
+
+    def nontrivial(self, inp):
+        return len(set(inp["L"])) > 1
+
+    def check(self, inp):
+        from whatshap.cli.genotype import determine_genotype
+        from whatshap.core import PhredGenotypeLikelihoods, Genotype
+        L = inp["L"]
+        got = determine_genotype(PhredGenotypeLikelihoods(L), inp["t"])
+        want = None
+        for g in range(3):
+            if all(L[g] > L[h] for h in range(3) if h != g) and L[g] > inp["t"]:
+                want = g
+        gv = sorted(got.as_vector())
+        exp = [] if want is None else [[0, 0], [0, 1], [1, 1]][want]
+        if gv != exp:
+            return dict(expected="genotype %r" % exp, observed=str(gv))
+        return None
+
+
+class GenotypeVcf(BCheck):
+    name = "C08.run_genotype-output"
+    contract = ("every genotyped call of `whatshap genotype` (output VCF and --prioroutput VCF): 10^GL sums to one; GT is the unique maximum of GL if that exceeds the threshold "
+                "1 - 10^(-T/10) and ./. otherwise; GQ == round(-10 log10(sum of the other genotypes' likelihoods)) (+-1 for the 6-digit GL text)")
+    rule = ("seeded diploid BAM scenarios (SNVs, depth 1-6, read length 30-100 so that some variants are covered only by reads seeing no second variant), thresholds T in "
+            "{0, 3, 10, 20, 50}, --constant in {0, 0.01, 0.05, 0.3}, priors on/off, with --prioroutput; calls within 1e-4 of a tie or of the threshold are skipped; "
+            "non-trivial = the file has a call that is not ./.")
+    budget_s = {"quick": 150, "thorough": 1500}
+    chunk = 2
+
+    def inputs(self, tier, rng):
+        for i in range(300 if tier == "quick" else 5000):
+            yield dict(seed=rng.getrandbits(48), T=[0, 3, 10, 20, 50][i % 5], constant=[0.0, 0.05, 0.01, 0.3][i % 4], nopriors=(i % 6 == 5))
+
+    def check(self, inp):
+        import logging
+        import os
+        import shutil
+        import tempfile
+        from scenario import bam as BAM, vcf as V
+        from whatshap.cli.genotype import run_genotype
+        logging.disable(logging.CRITICAL)
+        r = random.Random(inp["seed"])
+        sc = BAM.generate(r, n_samples=(1, 1), kinds=("snv",), depth=(1, 6), read_len=(30, 100), n_variants=(3, 8), hom_frac=0.3, softclip=0.0, eqx=0.0)
+        d = tempfile.mkdtemp(prefix="c08_")
+        try:
+            paths = BAM.materialize(sc, d)
+            vcf = os.path.join(d, "in.vcf")
+            with open(vcf, "w") as f:
+                f.write(BAM.vcf_text(sc))
+            out, prior = os.path.join(d, "out.vcf"), os.path.join(d, "prior.vcf")
+            try:
+                run_genotype([paths["bam"]], vcf, reference=paths["fasta"], output=out, gt_qual_threshold=inp["T"], constant=inp["constant"], nopriors=inp["nopriors"],
+                             prioroutput=None if inp["nopriors"] else prior, write_command_line_header=False)
+            except Exception as e:
+                import traceback
+                return dict(expected="run_genotype succeeds", observed="%s: %s" % (type(e).__name__, e), traceback=traceback.format_exc()[-1500:])
+            thr = 1.0 - 10 ** (-inp["T"] / 10.0)
+            for which, p in (("output", out), ("prioroutput", prior)):
+                if not os.path.exists(p):
+                    continue
+                with open(p) as f:
+                    _, samples, recs = V.parse(f.read())
+                for rec in recs:
+                    call = rec["calls"][0]
+                    if "GL" not in call or call["GL"] in (".", None):
+                        continue
+                    L = [10 ** float(x) for x in call["GL"].split(",")]
+                    where = "%s %s:%d" % (which, rec["chrom"], rec["pos"])
+                    if abs(sum(L) - 1.0) > 2e-3:
+                        return dict(expected="%s: 10^GL sums to 1" % where, observed="%r (GL %s)" % (sum(L), call["GL"]), clause="distribution")
+                    srt = sorted(L)
+                    if abs(srt[2] - srt[1]) < 1e-4 or abs(srt[2] - thr) < 1e-4:
+                        continue
+                    gt = call["GT"]
+                    if srt[2] > thr:
+                        want = ["0/0", "0/1", "1/1"][L.index(srt[2])]
+                    else:
+                        want = "./."
+                    norm = "/".join(sorted(gt.replace("|", "/").split("/")))      # an unphased genotype is an allele multiset: 1/0 == 0/1
+                    if norm not in (want, "." if want == "./." else want):
+                        return dict(expected="%s: GT %s (GL %s, threshold probability %.6f)" % (where, want, call["GL"], thr), observed=gt, clause="gt-vs-gl",
+                                    constant=inp["constant"], T=inp["T"])
+                    if want != "./.":
+                        other = 1.0 - srt[2]
+                        gq = call.get("GQ", ".")
+                        if gq in (".", None):
+                            return dict(expected="%s: GQ present" % where, observed=gq, clause="gq")
+                        exp = 10000 if other <= 0 else min(round(-10.0 * __import__("math").log10(other)), 10000)
+                        if abs(int(gq) - exp) > 1 and other > 1e-5:
+                            return dict(expected="%s: GQ %d" % (where, exp), observed=gq, clause="gq")
+            return None
+        finally:
+            logging.disable(logging.NOTSET)
+            shutil.rmtree(d, ignore_errors=True)
+
+
+B_CHECKS = [HmmPosterior(), DetermineGenotype(), GenotypeVcf()]
